@@ -5,6 +5,7 @@ use serde_json::Value;
 
 pub mod c01;
 pub mod c02;
+pub mod c03;
 pub mod c05;
 pub mod c08;
 pub mod c14;
@@ -16,6 +17,7 @@ pub fn run(id: &str, tier: Tier) -> Option<CheckResult> {
     match id {
         "C01" => Some(c01::run(tier)),
         "C02" => Some(c02::run(tier)),
+        "C03" => Some(c03::run(tier)),
         "C05" => Some(c05::run(tier)),
         "C08" => Some(c08::run(tier)),
         "C14" => Some(c14::run(tier)),
@@ -30,6 +32,7 @@ pub fn replay(id: &str, case: &Value) -> Option<Vec<Violation>> {
     match id {
         "C01" => Some(c01::replay(case)),
         "C02" => Some(c02::replay(case)),
+        "C03" => Some(c03::replay(case)),
         "C05" => Some(c05::replay(case)),
         "C08" => Some(c08::replay(case)),
         "C14" => Some(c14::replay(case)),
